@@ -144,3 +144,45 @@ Example c01_hypotheses_satisfiable :
   snd (fst (S_vi_solve refut_M (1#2) (1#4) Span false 1 50 (vi_init [0;0]))) = true /\
   qlist_eqb (sweep refut_M (1#2) [0; 8]) [0; 8] = true.
 Proof. vm_compute. repeat split; reflexivity. Qed.
+
+(* ---------- ties by translation (re-stated here so that THIS property's obligations break when the source they speak about
+   changes shape): gen/GenKernel.v and gen/GenLoops.v are regenerated from $VERIF_REPO/src on every run *)
+From MdpaxV Require Import Model.Skeleton Model.Kernel Model.KernelOps Proofs.SkeletonP Proofs.GenKernelP.
+From MdpaxGen Require Import GenLoops GenKernel.
+
+(* the one-state update GENERATED from ValueIteration._calculate_updated_value (expectation over the event space with the
+   problem's own probabilities, maximum over the action space) is the Bellman optimality backup the theorems above use *)
+Theorem c01_generated_update_is_bellman_backup : forall (M : mdp) st g V, (0 < nA M)%nat ->
+  gen_calculate_updated_value (prims_of M) st (seq 0 (nA M)) (seq 0 (nE M)) g V = backup M g V st.
+Proof. exact gen_updated_value_is_backup. Qed.
+Print Assumptions c01_generated_update_is_bellman_backup.
+
+(* the measures GENERATED from _get_span / _get_max_diff are the ones the stopping rules above compare with the threshold *)
+Theorem c01_generated_measures : forall new old, length new = length old -> (0 < length new)%nat ->
+  gen_get_span new old == span_diff new old /\ gen_get_max_diff new old == maxabs_diff new old.
+Proof. exact (fun new old HL Hn => conj (gen_span_eq new old HL Hn) (gen_max_diff_eq new old HL Hn)). Qed.
+Print Assumptions c01_generated_measures.
+
+(* each solve() whose result this property speaks about = the interpretation of the skeleton translated from ITS source
+   (one step per pass, the stopping test, the periodic and the final save, the policy extraction) *)
+Theorem c01_vi_solve_follows_source : forall g eps SW POL t ckpt freq k st,
+  vi_solve g eps SW POL t ckpt freq k st =
+  run_skel vist vi_incr (vi_sweep_step g eps SW t) v_iter (vi_finish POL true) (fun s => s) ckpt freq vi_skel k st.
+Proof. exact vi_solve_is_skeleton. Qed.
+Print Assumptions c01_vi_solve_follows_source.
+Theorem c01_savi_solve_follows_source : forall M g eps POL n mb d zidx pw pv perm t ckpt freq k st,
+  savi_solve M g eps POL n mb d zidx pw pv perm t ckpt freq k st =
+  run_skel savist savi_incr (savi_sweep_step M g eps n mb d zidx pw pv perm t) s_iter (savi_finish POL true) (fun s => s) ckpt freq savi_skel k st.
+Proof. exact savi_solve_is_skeleton. Qed.
+Print Assumptions c01_savi_solve_follows_source.
+Theorem c01_pi_solve_follows_source : forall g eps POL EV t me reset V0 ckpt freq k st,
+  pi_solve g eps POL EV t me reset V0 ckpt freq k st =
+  run_skel pist pi_incr (pi_improve_step g eps POL EV t me reset V0) pi_iter (fun s => s) (fun s => s) ckpt freq pi_skel k st.
+Proof. exact pi_solve_is_skeleton. Qed.
+Print Assumptions c01_pi_solve_follows_source.
+Theorem c01_pvi_solve_follows_source : forall g eps SW POL clearflag ckpt freq k st,
+  pvi_solve g eps SW POL clearflag ckpt freq k st =
+  run_skel pvist pvi_incr (pvi_sweep_step g eps SW) p_iter (pvi_finish POL false false)
+           (fun s => if clearflag then pvi_clear s else s) ckpt freq pvi_skel k st.
+Proof. exact pvi_solve_is_skeleton. Qed.
+Print Assumptions c01_pvi_solve_follows_source.
